@@ -162,6 +162,20 @@ End Ignore.
 Definition wrapped_node_doc : xml :=
   Elem "osm" [] [Elem "wrapper" [] [Elem "node" [("id", AInt 1)] [] (AStr [])] (AStr [])] (AStr []).
 
+(* an element named like an object kind up to ASCII case: the decoder ignores it, the scanner
+   stops with an error (or, for Bounds, yields an object the decoder does not have) *)
+Definition case_variant_doc : xml :=
+  Elem "osm" [] [Elem "Node" [("id", AInt 5)] [] (AStr []); Elem "node" [("id", AInt 1)] [] (AStr [])] (AStr []).
+Definition case_bounds_doc : xml :=
+  Elem "osm" [] [Elem "Bounds" [("minlat", AFloat 128)] [] (AStr [])] (AStr []).
+
+Lemma scanner_case_fold :
+  (match decode gen_schema "OSM" case_variant_doc with Ok _ => true | Err _ => false end = true
+   /\ scan_el gen_schema case_variant_doc = ([], Some EName))
+  /\ (decode gen_schema "OSM" case_bounds_doc = Ok (zero gen_schema FUEL (TNamed "OSM"))
+      /\ map fst (fst (scan_el gen_schema case_bounds_doc)) = ["Bounds"]).
+Proof. repeat split; vm_compute; reflexivity. Qed.
+
 Lemma scanner_descends_unknown :
   exists doc, doc_ok "OSM" doc = false /\
               fst (scan_el gen_schema doc) <> [] /\
@@ -182,8 +196,26 @@ Definition interleaved_doc : xml :=
 Definition node_ids (l : list obj) : list value :=
   map (fun o => match snd o with VStruct (i :: _) => i | x => x end) l.
 
+Definition go_field (T : string) (v : value) (nm : string) : value :=
+  match lookup_type gen_schema T, v with
+  | Some d, VStruct vs => match fget_go (struct_fields d) vs nm with Some (_, x) => x | None => VOpaque end
+  | _, _ => VOpaque
+  end.
+Definition block_node_ids (change : value) (blk : string) : list value :=
+  match go_field "Change" change blk with
+  | VPtr (Some o) => match go_field "OSM" o "Nodes" with
+                     | VList l => map (fun p => match p with VPtr (Some n) => go_field "Node" n "ID" | x => x end) l
+                     | _ => []
+                     end
+  | _ => []
+  end.
+
 Lemma interleaved_blocks_example :
   doc_ok "Change" interleaved_doc = true /\
   node_ids (fst (scan_el gen_schema interleaved_doc)) = [VInt 1; VInt 2; VInt 3] /\
-  match decode gen_schema "Change" interleaved_doc with Ok _ => true | Err _ => false end = true.
+  (* both create blocks accumulate into Create (nodes 1 and 3), Modify holds node 2 *)
+  match decode gen_schema "Change" interleaved_doc with
+  | Ok v => (block_node_ids v "Create", block_node_ids v "Modify", block_node_ids v "Delete")
+  | Err _ => ([], [], [])
+  end = ([VInt 1; VInt 3], [VInt 2], []).
 Proof. split; [|split]; vm_compute; reflexivity. Qed.
